@@ -394,8 +394,12 @@ func scalarMult(x *mon.Ctx) {
 	// every point of the set with the key scalars
 	key := []sc{{"0", "", bi(0)}, {"1", "", bi(1)}, {"2", "", bi(2)}, {"33", "", bi(33)}, {"n-2", "", sub(ec.N, two)}, {"n-1", "", sub(ec.N, one)},
 		{"n", "", ec.N}, {"n+1", "", add(ec.N, one)}, {"2^256-1", "", sub(p256, one)}, {"random", "", nil}, {"random40", "", nil}}
-	for _, q := range all {
-		for _, s := range key {
+	for qi, q := range all {
+		for si, s := range key {
+			// quick: the dense key scalars other than n-1 and "random" only on every fourth point
+			if !x.Thorough() && si >= 4 && s.name != "n-1" && s.name != "random" && (qi+si)%4 != 0 {
+				continue
+			}
 			c := x.Begin("ScalarMult: point=%s key scalar %s", q.name, s.name)
 			if c == nil {
 				continue
